@@ -277,6 +277,33 @@ def add_reversed_twin(rng, ag, value_cap=1 << 18):
     return b if nat_bound(b) <= value_cap else ag
 
 
+def gen_factor_at_two_levels(rng):
+    """S -> X(u,v) a(v,w) [c(w)];  X(x,y) -> a(x,y) b(x,y) [| d(x,y)]: one binary factor used INSIDE a nonterminal and again
+    NEXT TO it (square domain).  The value tensors a rule produces inherit internal names from their operands, so which
+    edge comes first decides what the gradient of the shared factor is expressed in."""
+    n = rng.choice([2, 2, 3])
+    els = {'S': {'t': False, 'type': []}, 'X': {'t': False, 'type': ['T', 'T']}, 'a': {'t': True, 'type': ['T', 'T']},
+           'b': {'t': True, 'type': ['T', 'T']}}
+    E = lambda lab, *att: {'lab': lab, 'att': list(att)}
+    r1 = {'lhs': 'S', 'nodes': ['T', 'T', 'T'], 'edges': [E('X', 1, 2), E('a', 2, 3)], 'ext': []}
+    r2 = {'lhs': 'X', 'nodes': ['T', 'T'], 'edges': [E('a', 1, 2), E('b', 1, 2)], 'ext': [1, 2]}
+    rules = [r1, r2]
+    if rng.random() < 0.5:
+        els['c'] = {'t': True, 'type': ['T']}
+        r1['edges'].append(E('c', 3))
+    if rng.random() < 0.4:
+        els['d'] = {'t': True, 'type': ['T', 'T']}
+        rules.append({'lhs': 'X', 'nodes': ['T', 'T'], 'edges': [E('d', 2, 1)], 'ext': [1, 2]})
+    for r in rules:
+        rng.shuffle(r['edges'])
+    rng.shuffle(rules)
+    w = {t: [rng.choice([0, 1, 1, 2, 3]) for _ in range(n ** len(d['type']))] for t, d in els.items() if d['t']}
+    wmp = {t: [rng.randint(-3, 2) for _ in range(n ** len(d['type']))] for t, d in els.items() if d['t']}
+    eo = list(els)
+    rng.shuffle(eo)
+    return {'nls': {'T': n}, 'els': els, 'elorder': eo, 'start': 'S', 'rules': rules, 'w': w, 'wmp': wmp}
+
+
 def add_shared_rhs_twin(rng, ag, reachable=True):
     """A second rule, for a NEW nonterminal W of the same type, whose right-hand side is THE SAME Graph object as an
     existing rule's (field 'share' = index of that rule; honoured by build_fgg / build_incremental).  Anything keyed by
